@@ -83,7 +83,7 @@ fn record_hook(key: u64) { unsafe { HOOK_CALLS += 1; HOOK_LAST_KEY = key; } }
 #[kani::proof]
 #[kani::unwind(6)]
 fn c05_cache_weight_step() {
-    unsafe { vs::MONITOR = true; }
+    unsafe { vs::MONITOR = true; vs::EDGES_ON = crate::cache::vk_cfg::LOCK_EDGES; }
     let stats = stk::vk_fresh();
     let a = vk_any_astate(if sup::cfg::TIER_THOROUGH { None } else { Some(2) }, false);
     let cw = vk_cache_weight(1, 0, stats.clone());
